@@ -1,4 +1,360 @@
-//! `sock`: not built yet.
-pub fn run_case(_line: &str) -> String {
-    "unimplemented".to_string()
+//! `sock`: the socket-backed sinks on real local sockets (127.0.0.1 UDP, Unix datagram in a temp dir).
+//!
+//! case:  U  <b|n> <q0|q1> <ops>        UdpMetricSink (blocking / non-blocking socket; q1 = behind a QueuingMetricSink)
+//!        X  <b|n> <q0|q1> <ops>        UnixMetricSink
+//!        BU <cap|d> <q0|q1> <ops>      BufferedUdpMetricSink (d = default capacity)
+//!        BX <cap|d> <q0|q1> <ops>      BufferedUnixMetricSink
+//!        UA <naddrs> <ops>             UdpMetricSink::from(&[SocketAddr][..]) with 0, 1 or 2 addresses
+//!        ST <threads> <updates>        SocketStats::update hammered from several threads
+//!        UC <threads> <emits>          one UdpMetricSink shared by several emitting threads
+//!   ops = comma list of E<hex> (emit) | F (flush) | l (listener down: Unix only) | L (listener up again)
+//! observation:  R:<per op: k<n> | e | - >|D:<datagrams received, hex, in order>|S:<bytes_sent>.<packets_sent>.<bytes_dropped>.<packets_dropped>
+//!   (stats are read after the last op and before the sink is dropped; for q1 through the queuing sink)
+use crate::util::{hex, unhex};
+use cadence::ext::SocketStats;
+use cadence::{
+    BufferedUdpMetricSink, BufferedUnixMetricSink, MetricSink, QueuingMetricSink, SinkStats, UdpMetricSink,
+    UnixMetricSink,
+};
+use std::net::{SocketAddr, UdpSocket};
+use std::os::unix::net::UnixDatagram;
+use std::panic::RefUnwindSafe;
+use std::path::PathBuf;
+use std::sync::atomic::{AtomicU64, Ordering};
+use std::sync::Arc;
+use std::thread;
+use std::time::{Duration, Instant};
+
+static COUNTER: AtomicU64 = AtomicU64::new(0);
+
+fn temp_path() -> PathBuf {
+    let n = COUNTER.fetch_add(1, Ordering::Relaxed);
+    let base = std::env::var("VERIF_TMP").unwrap_or_else(|_| "/tmp".to_string());
+    PathBuf::from(format!("{}/cadence-verif-{}-{}.sock", base, std::process::id(), n))
+}
+
+fn stats_str(s: &SinkStats) -> String {
+    format!("{}.{}.{}.{}", s.bytes_sent, s.packets_sent, s.bytes_dropped, s.packets_dropped)
+}
+
+enum Recv {
+    Udp(UdpSocket),
+    Unix(Option<UnixDatagram>, PathBuf),
+}
+
+impl Recv {
+    fn drain(&self, out: &mut Vec<Vec<u8>>, quiet_ms: u64) {
+        let mut buf = vec![0u8; 300_000];
+        let mut last = Instant::now();
+        loop {
+            let r = match self {
+                Recv::Udp(s) => s.recv(&mut buf).ok(),
+                Recv::Unix(Some(s), _) => s.recv(&mut buf).ok(),
+                Recv::Unix(None, _) => None,
+            };
+            match r {
+                Some(n) => {
+                    out.push(buf[..n].to_vec());
+                    last = Instant::now();
+                }
+                None => {
+                    if last.elapsed() > Duration::from_millis(quiet_ms) {
+                        break;
+                    }
+                    thread::sleep(Duration::from_millis(1));
+                }
+            }
+        }
+    }
+}
+
+enum AnySink {
+    Plain(Box<dyn MetricSink + Send + Sync + RefUnwindSafe>),
+    Queued(QueuingMetricSink),
+}
+
+impl AnySink {
+    fn wrap<T: MetricSink + Send + Sync + RefUnwindSafe + 'static>(s: T, queued: bool) -> AnySink {
+        if queued {
+            AnySink::Queued(QueuingMetricSink::from(s))
+        } else {
+            AnySink::Plain(Box::new(s))
+        }
+    }
+    fn emit(&self, m: &str) -> std::io::Result<usize> {
+        match self {
+            AnySink::Plain(s) => s.emit(m),
+            AnySink::Queued(q) => {
+                // the queuing sink answers for the queue; the wrapped sink's result is observed through its stats
+                let r = q.emit(m);
+                let t0 = Instant::now();
+                while q.drained() < q.submitted() && t0.elapsed() < Duration::from_secs(2) {
+                    thread::yield_now();
+                }
+                // wait until the worker is back in recv (the wrapped emit returned)
+                thread::sleep(Duration::from_millis(1));
+                r
+            }
+        }
+    }
+    fn flush(&self) -> std::io::Result<()> {
+        match self {
+            AnySink::Plain(s) => s.flush(),
+            AnySink::Queued(q) => q.flush(),
+        }
+    }
+    fn stats(&self) -> SinkStats {
+        match self {
+            AnySink::Plain(s) => s.stats(),
+            AnySink::Queued(q) => q.stats(),
+        }
+    }
+}
+
+fn run_ops(sink: AnySink, recv: &mut Recv, ops: &str, queued: bool) -> String {
+    let mut res = vec![];
+    let mut got: Vec<Vec<u8>> = vec![];
+    for op in ops.split(',') {
+        if op == "-" {
+            continue;
+        }
+        match &op[..1] {
+            "E" => {
+                let m = String::from_utf8(unhex(&op[1..])).expect("utf8");
+                let r = sink.emit(&m);
+                res.push(match r {
+                    Ok(n) => format!("k{}", n),
+                    Err(_) => "e".to_string(),
+                });
+                // keep the receive queue short so that the OS never drops anything
+                recv.drain(&mut got, 0);
+            }
+            "F" => {
+                res.push(match sink.flush() {
+                    Ok(()) => "k0".to_string(),
+                    Err(_) => "e".to_string(),
+                });
+                recv.drain(&mut got, 0);
+            }
+            "l" => {
+                if let Recv::Unix(s, p) = recv {
+                    // take what already arrived, then go away
+                    if let Some(sock) = s.as_ref() {
+                        let mut buf = vec![0u8; 300_000];
+                        while let Ok(n) = sock.recv(&mut buf) {
+                            got.push(buf[..n].to_vec());
+                        }
+                    }
+                    *s = None;
+                    let _ = std::fs::remove_file(&p);
+                }
+                res.push("-".to_string());
+            }
+            "L" => {
+                if let Recv::Unix(s, p) = recv {
+                    if s.is_none() {
+                        let sock = UnixDatagram::bind(&p).expect("rebind");
+                        sock.set_nonblocking(true).unwrap();
+                        *s = Some(sock);
+                    }
+                }
+                res.push("-".to_string());
+            }
+            _ => panic!("bad op {}", op),
+        }
+    }
+    let st = sink.stats();
+    drop(sink);
+    if queued {
+        thread::sleep(Duration::from_millis(20));
+    }
+    recv.drain(&mut got, 30);
+    if let Recv::Unix(_, p) = recv {
+        let _ = std::fs::remove_file(&p);
+    }
+    format!(
+        "R:{}|D:{}|S:{}",
+        res.join(","),
+        got.iter().map(|d| hex(d)).collect::<Vec<_>>().join(";"),
+        stats_str(&st)
+    )
+}
+
+fn udp_pair(nonblocking: bool) -> (UdpSocket, UdpSocket, SocketAddr) {
+    let recv = UdpSocket::bind("127.0.0.1:0").expect("bind");
+    recv.set_nonblocking(true).unwrap();
+    let addr = recv.local_addr().unwrap();
+    let send = UdpSocket::bind("127.0.0.1:0").expect("bind");
+    if nonblocking {
+        send.set_nonblocking(true).unwrap();
+    }
+    (recv, send, addr)
+}
+
+fn unix_pair(nonblocking: bool) -> (UnixDatagram, UnixDatagram, PathBuf) {
+    let p = temp_path();
+    let _ = std::fs::remove_file(&p);
+    let recv = UnixDatagram::bind(&p).expect("bind unix");
+    recv.set_nonblocking(true).unwrap();
+    let send = UnixDatagram::unbound().expect("unbound");
+    if nonblocking {
+        send.set_nonblocking(true).unwrap();
+    }
+    (recv, send, p)
+}
+
+fn cap_of(s: &str) -> Option<usize> {
+    if s == "d" {
+        None
+    } else {
+        Some(s.parse().unwrap())
+    }
+}
+
+pub fn run_case(line: &str) -> String {
+    let t: Vec<&str> = line.split_whitespace().collect();
+    match t[0] {
+        "U" => {
+            let (recv, send, addr) = udp_pair(t[1] == "n");
+            let sink = UdpMetricSink::from(addr, send).expect("sink");
+            run_ops(AnySink::wrap(sink, t[2] == "q1"), &mut Recv::Udp(recv), t[3], t[2] == "q1")
+        }
+        "X" => {
+            let (recv, send, p) = unix_pair(t[1] == "n");
+            let sink = UnixMetricSink::from(&p, send);
+            run_ops(AnySink::wrap(sink, t[2] == "q1"), &mut Recv::Unix(Some(recv), p), t[3], t[2] == "q1")
+        }
+        "BU" => {
+            let (recv, send, addr) = udp_pair(false);
+            let sink = match cap_of(t[1]) {
+                None => BufferedUdpMetricSink::from(addr, send).expect("sink"),
+                Some(c) => BufferedUdpMetricSink::with_capacity(addr, send, c).expect("sink"),
+            };
+            run_ops(AnySink::wrap(sink, t[2] == "q1"), &mut Recv::Udp(recv), t[3], t[2] == "q1")
+        }
+        "BX" => {
+            let (recv, send, p) = unix_pair(false);
+            let sink = match cap_of(t[1]) {
+                None => BufferedUnixMetricSink::from(&p, send),
+                Some(c) => BufferedUnixMetricSink::with_capacity(&p, send, c),
+            };
+            run_ops(AnySink::wrap(sink, t[2] == "q1"), &mut Recv::Unix(Some(recv), p), t[3], t[2] == "q1")
+        }
+        "UA" => {
+            let n: usize = t[1].parse().unwrap();
+            let (r1, send, a1) = udp_pair(false);
+            let (r2, _s2, a2) = udp_pair(false);
+            let addrs: Vec<SocketAddr> = [a1, a2][..n.min(2)].to_vec();
+            match UdpMetricSink::from(&addrs[..], send) {
+                Err(e) => format!("ctor:{}", if e.kind() == cadence::ErrorKind::InvalidInput { "inv" } else { "io" }),
+                Ok(sink) => {
+                    let o = run_ops(AnySink::wrap(sink, false), &mut Recv::Udp(r1), t[2], false);
+                    let mut other = vec![];
+                    Recv::Udp(r2).drain(&mut other, 20);
+                    format!("{}|D2:{}", o, other.len())
+                }
+            }
+        }
+        "ST" => {
+            let threads: usize = t[1].parse().unwrap();
+            let n: u64 = t[2].parse().unwrap();
+            let stats = SocketStats::default();
+            let mut hs = vec![];
+            for th in 0..threads {
+                let s = stats.clone();
+                hs.push(thread::spawn(move || {
+                    for i in 0..n {
+                        let len = ((i * 7 + th as u64) % 100) as usize;
+                        if i % 3 == 0 {
+                            let _ = s.update(Err(std::io::Error::from(std::io::ErrorKind::Other)), len);
+                        } else {
+                            let _ = s.update(Ok(len), len);
+                        }
+                    }
+                }));
+            }
+            for h in hs {
+                h.join().unwrap();
+            }
+            let got: SinkStats = (&stats).into();
+            let (mut bs, mut ps, mut bd, mut pd) = (0u64, 0u64, 0u64, 0u64);
+            for th in 0..threads {
+                for i in 0..n {
+                    let len = (i * 7 + th as u64) % 100;
+                    if i % 3 == 0 {
+                        bd += len;
+                        pd += 1;
+                    } else {
+                        bs += len;
+                        ps += 1;
+                    }
+                }
+            }
+            format!("S:{}|W:{}.{}.{}.{}", stats_str(&got), bs, ps, bd, pd)
+        }
+        "UC" => {
+            let threads: usize = t[1].parse().unwrap();
+            let n: usize = t[2].parse().unwrap();
+            let (recv, send, addr) = udp_pair(false);
+            // a generous receive buffer; volumes are small
+            let sink = Arc::new(UdpMetricSink::from(addr, send).expect("sink"));
+            let got = Arc::new(std::sync::Mutex::new(Vec::<Vec<u8>>::new()));
+            let done = Arc::new(std::sync::atomic::AtomicBool::new(false));
+            let rh = {
+                let got = got.clone();
+                let done = done.clone();
+                thread::spawn(move || {
+                    let mut buf = vec![0u8; 70_000];
+                    loop {
+                        match recv.recv(&mut buf) {
+                            Ok(k) => got.lock().unwrap().push(buf[..k].to_vec()),
+                            Err(_) => {
+                                if done.load(Ordering::Acquire) {
+                                    break;
+                                }
+                                thread::sleep(Duration::from_micros(200));
+                            }
+                        }
+                    }
+                })
+            };
+            let mut hs = vec![];
+            for th in 0..threads {
+                let s = sink.clone();
+                hs.push(thread::spawn(move || {
+                    let mut ok = (0u64, 0u64, 0u64, 0u64);
+                    for i in 0..n {
+                        let m = format!("t{}.s{}:{}|c", th, i, "x".repeat(i % 17));
+                        match s.emit(&m) {
+                            Ok(k) => {
+                                ok.0 += k as u64;
+                                ok.1 += 1;
+                            }
+                            Err(_) => {
+                                ok.2 += m.len() as u64;
+                                ok.3 += 1;
+                            }
+                        }
+                        if i % 16 == 0 {
+                            thread::sleep(Duration::from_micros(100));
+                        }
+                    }
+                    ok
+                }));
+            }
+            let mut tot = (0u64, 0u64, 0u64, 0u64);
+            for h in hs {
+                let o = h.join().unwrap();
+                tot = (tot.0 + o.0, tot.1 + o.1, tot.2 + o.2, tot.3 + o.3);
+            }
+            thread::sleep(Duration::from_millis(30));
+            done.store(true, Ordering::Release);
+            rh.join().unwrap();
+            let st = sink.stats();
+            let rec = got.lock().unwrap();
+            let rbytes: u64 = rec.iter().map(|d| d.len() as u64).sum();
+            format!("S:{}|W:{}.{}.{}.{}|N:{}.{}", stats_str(&st), tot.0, tot.1, tot.2, tot.3, rec.len(), rbytes)
+        }
+        _ => panic!("bad sock case"),
+    }
 }
